@@ -75,10 +75,11 @@ def run(chk, args):
 
 def replay(chk, drv, path):
     with open(path) as fh:
-        rp = json.load(fh)["replay"]
+        f = json.load(fh)
+    rp = f["replay"]
     case = dict(rp["case"])
     case["_idx"] = rp.get("idx", 0)
-    vlib.drive_cases(chk, drv, ["run"], [case], [chk.seed], tag="replay")
+    vlib.drive_cases(chk, drv, ["run"], [case], [f.get("seed", chk.seed)], tag="replay")
 
 
 MANIFEST = {
